@@ -76,7 +76,8 @@ Definition run_C20 (i : term) : term :=
   else if String.eqb op "e2e-session" then
     TL [TZ 0; TL []; TZ (Z.of_nat (List.length (filter (fun l => contains_char ">" l) (gss (gn i 1)))))]
   else if String.eqb op "e2e-webfirst" then
-    TL [TZ 1; of_zs (repeat 200 (Z.to_nat (gz (gn i 2))))]
+    (* ... and every download, first or later, is the profile (serialize_concurrent_equals_sequential) *)
+    TL [TZ 1; of_zs (repeat 200 (Z.to_nat (gz (gn i 2)))); TZ 0]
   else if String.eqb op "ui-lines" then
     (* ui_print_whole_lines: each Print is ONE write of message+newline, so any interleaving of the
        writers is a sequence of whole lines: k*m lines, none empty, none torn *)
